@@ -233,6 +233,12 @@ static void run_cal(cs_scenario *sc, bool model, int gk, double snf,
 	    double x = (n > 1 && f1 > f0) ? (f - f0) / (f1 - f0) : 0.0;
 	    nfv[i] = snf * (1.0 + g_slope_nf * x);
 	    trv[i] = str * (1.0 + g_slope_tr * x);
+	    /* per-point factors of the scenario (grid kind 1 only: the
+	       declaration is per calibration frequency) */
+	    if (gk == 1 && sc->sigma_fscale[i] != 0.0) {
+		nfv[i] *= sc->sigma_fscale[i];
+		trv[i] *= sc->sigma_fscale[i];
+	    }
 	}
 	if (g_predeclare) {
 	    /* another model was declared first (ten times the floor and a
@@ -436,6 +442,45 @@ static void run_det(int tier, long idx, vf_result *r)
 	} else {
 	    snprintf(sig, sizeof(sig), "outlier-setup:%s", tname);
 	    vf_fail(r, sig, "set-up failed %d %s", bad.rc, bad.msg);
+	}
+    }
+    /*
+     * The same where the declared noise falls by a factor of 1000 from the
+     * first calibration frequency to the last (per-point declaration): a
+     * standard displaced at the last frequency only, by 100 of the standard
+     * deviations declared there, is a tenth of a standard deviation of the
+     * first frequency.  Every frequency is judged against its own noise.
+     */
+    if (gk == 1 && str <= 1e-3 && r->status == VF_OK) {
+	int local_rejected = 0;
+	sc.sigma_fscale[0] = 1.0;
+	sc.sigma_fscale[nf - 1] = 1e-3;
+	run_cal(&sc, true, gk, snf, str, false, 0, &weighted, r);
+	if (weighted.rc != 0) {
+	    snprintf(sig, sizeof(sig), "exact-rejected-falling:%s", tname);
+	    vf_fail(r, sig, "exact data rejected when the declared noise "
+		    "falls with frequency: rc %d errno %d %s", weighted.rc,
+		    weighted.err_no, weighted.msg);
+	}
+	for (int k = 0; k < sc.nstd && r->status == VF_OK; ++k) {
+	    sc.displace_id = sc.std[k].id;
+	    sc.displace_sigmas = 100.0;
+	    sc.displace_findex1 = nf;
+	    run_cal(&sc, true, gk, snf, str, false, 0, &bad, r);
+	    sc.displace_id = 0;
+	    sc.displace_findex1 = 0;
+	    if (bad.rc == -1 && bad.err_no == EDOM)
+		++local_rejected;
+	}
+	sc.sigma_fscale[0] = sc.sigma_fscale[nf - 1] = 0.0;
+	if (r->status == VF_OK && local_rejected == 0) {
+	    snprintf(sig, sizeof(sig), "no-outlier-noticed-falling:%s",
+		    tname);
+	    vf_fail(r, sig, "declared noise 1000 times smaller at the last "
+		    "frequency than at the first: none of the %d standards "
+		    "displaced there by 100 of the standard deviations "
+		    "declared there was rejected (sigma_nf %g, sigma_tr %g)",
+		    sc.nstd, snf, str);
 	}
     }
     /*
